@@ -892,30 +892,19 @@ func (e *Exec) assignTarget(env *SpecEnv, a *SExpr) (out []assignTarget, err err
 				return nil, fmt.Errorf("no field %s in %s", a.Name, a.Args[0].Name)
 			}
 		}
+		// a.b.c.f : walk the selector chain from the first pointer-valued prefix
+		if fp := e.specPlace(env, a); fp != nil {
+			keys, leaves, two := placeLeaves(fp)
+			for j, k := range keys {
+				out = append(out, assignTarget{key: k, sort: leaves[j].Sort, two: two, obj: e.placeIndex(fp)})
+			}
+			return out, nil
+		}
 		base := env.eval(a.Args[0])
 		if g, ok := e.eng.specs.Ghosts[a.Name]; ok && g.IsField {
 			p := env.placeOfPtr(base)
 			prefix, _ := placePrefix(p)
 			return []assignTarget{{key: prefix + "$" + a.Name, sort: sortOfSpecType(env.specType(g.Result)), obj: e.placeIndex(p)}}, nil
-		}
-		pt, ok := base.T.Underlying().(*types.Pointer)
-		if !ok {
-			return nil, fmt.Errorf("assigns target base is not a pointer")
-		}
-		stt, ok := pt.Elem().Underlying().(*types.Struct)
-		if !ok {
-			return nil, fmt.Errorf("assigns target base is not a struct pointer")
-		}
-		p := env.placeOfPtr(base)
-		for i := 0; i < stt.NumFields(); i++ {
-			if stt.Field(i).Name() == a.Name {
-				fp := fieldPlace(p, pt.Elem(), stt, i)
-				keys, leaves, two := placeLeaves(fp)
-				for j, k := range keys {
-					out = append(out, assignTarget{key: k, sort: leaves[j].Sort, two: two, obj: fp.Base})
-				}
-				return out, nil
-			}
 		}
 		return nil, fmt.Errorf("no field %s", a.Name)
 	}
@@ -978,4 +967,73 @@ func mentionsTrace(x *SExpr) bool {
 		}
 	}
 	return false
+}
+
+// specPlace resolves a selector chain x.a.b.c to the memory place it denotes,
+// when some prefix of the chain is a pointer and the rest are struct fields.
+func (e *Exec) specPlace(env *SpecEnv, x *SExpr) *Place {
+	if x.Op != "sel" {
+		return nil
+	}
+	if g, ok := e.eng.specs.Ghosts[x.Name]; ok && g.IsField {
+		return nil
+	}
+	// innermost first
+	var chain []string
+	cur := x
+	for cur.Op == "sel" {
+		chain = append([]string{cur.Name}, chain...)
+		cur = cur.Args[0]
+	}
+	// evaluate the longest prefix that yields a pointer
+	root := cur
+	if root.Op == "id" {
+		if _, isVar := env.vars[root.Name]; !isVar {
+			return nil
+		}
+	}
+	var v Value
+	func() {
+		defer func() {
+			if r := recover(); r != nil {
+				if _, ok := r.(specError); !ok {
+					panic(r)
+				}
+				v = Value{}
+			}
+		}()
+		v = env.eval(root)
+	}()
+	if v.T == nil || !isPointer(v.T) {
+		return nil
+	}
+	p := env.placeOfPtr(v)
+	t := v.T.Underlying().(*types.Pointer).Elem()
+	for i, name := range chain {
+		st, ok := t.Underlying().(*types.Struct)
+		if !ok {
+			return nil
+		}
+		found := false
+		for fi := 0; fi < st.NumFields(); fi++ {
+			if st.Field(fi).Name() == name {
+				p = fieldPlace(p, t, st, fi)
+				t = st.Field(fi).Type()
+				found = true
+				break
+			}
+		}
+		if !found {
+			return nil
+		}
+		// a pointer-typed intermediate field: load it and continue from the object it points to
+		if i < len(chain)-1 {
+			if pt, ok := t.Underlying().(*types.Pointer); ok {
+				lv := e.loadPlace(env.st, p, env.view)
+				p = &Place{Kind: PObj, Base: lv.L[0], Typ: pt.Elem()}
+				t = pt.Elem()
+			}
+		}
+	}
+	return p
 }
